@@ -522,6 +522,12 @@ def _gen_spec_once(rng, pf):
         end -= dt * float(rng.uniform(0.05, 0.95))
     years = [math.floor(start) + i for i in range(0, max(2, int(math.ceil(end - math.floor(start))) + 2))]
 
+    # transfers and interactions may be time-varying too (and carry a constant next to their year values)
+    for tr_ in transfers:
+        for e in tr_["entries"]:
+            if rng.random() < 0.3:
+                e[3] = _gen_series(rng, dict(pf, p_timevarying=1.0), e[2], vclass, years)
+
     # --- data -----------------------------------------------------------------------------------
     values = {}
     for c in comps:
@@ -625,7 +631,10 @@ def _gen_series(rng, pf, fmt, vclass, years):
         return {"a": sample_value(rng, fmt, vclass)}
     k = int(rng.integers(1, min(5, len(years)) + 1))
     ts = sorted(float(y) for y in rng.choice(years, size=k, replace=False))
-    return {"t": ts, "v": [sample_value(rng, fmt, vclass) for _ in ts]}
+    out = {"t": ts, "v": [sample_value(rng, fmt, vclass) for _ in ts]}
+    if rng.random() < 0.15:
+        out["a"] = sample_value(rng, fmt, vclass)  # a constant entered next to year values (valid: the year values take precedence)
+    return out
 
 
 # ----------------------------------------------------------------------------------------------
@@ -716,7 +725,7 @@ def build_framework(spec):
 def fill_ts(ts, v):
     if "a" in v:
         ts.insert(None, v["a"])
-    else:
+    if "t" in v:
         for t, x in zip(v["t"], v["v"]):
             ts.insert(t, x)
     if v.get("sigma") is not None:
